@@ -380,6 +380,14 @@ def standin_predicates(tier, seed):
                 ok = np.allclose(np.linalg.matrix_power(up, 1) @ np.linalg.matrix_power(u, -t_), np.eye(len(u)), atol=1e-7)
             else:
                 ok = np.allclose(up, np.linalg.matrix_power(u, t_), atol=1e-7)
+            if not ok and isinstance(g, cirq.CliffordGate):
+                # a gate given by its tableau has a matrix only up to a global phase (the tableau does not record one): its powers are compared that way
+                if t_ == 0.5:
+                    ok = cirq.allclose_up_to_global_phase(up @ up, u, atol=1e-7)
+                elif t_ < 0:
+                    ok = cirq.allclose_up_to_global_phase(up @ np.linalg.matrix_power(u, -t_), np.eye(len(u)), atol=1e-7)
+                else:
+                    ok = cirq.allclose_up_to_global_phase(up, np.linalg.matrix_power(u, t_), atol=1e-7)
             if not ok:
                 bad(f"g**{t_} is not the {t_}-th power of the gate's matrix", gate=g)
     # commutes => matrices commute (same qubits)
